@@ -12,7 +12,7 @@ let jev j =
   match jstr (jfield j "e") with
   | "init" -> EInit (SL.map jpeer (jlist (jfield j "sl")))
   | "start" -> EStart (jnlist (jfield j "good"))
-  | "done" -> EDone (jn (jfield j "p"), jnlist (jfield j "good"))
+  | "done" -> EDone (jn (jfield j "p"), jnat (jfield j "tid"), jnlist (jfield j "good"))
   | "fail" -> EFail (jn (jfield j "p"))
   | "crash" -> ECrash (jn (jfield j "p"))
   | "notconn" -> ENotConnected (jn (jfield j "p"))
@@ -77,20 +77,32 @@ let () = serve (fun fn req ->
   | "frun" ->
     let prm = { fp_kind = (if jstr (jfield req "kind") = "node" then KNode else KValue);
                 fp_key_is_self = jbool (jfield req "key_is_self"); fp_maxres = jnat (jfield req "maxres");
-                fp_cap = jcap req } in
+                fp_cap = jcap req;
+                fp_stalepop = (match jfield_opt req "stalepop" with Some (JBool b) -> b | _ -> false) } in
     let evs = SL.map jev (jlist (jfield req "events")) in
     let (st, res) = frun prm f_init evs in
     JObj [("steps", of_list (fun (outs, tag) -> JObj [("outs", of_list of_fout outs); ("tag", of_n tag)]) res);
           ("sched", of_nat st.f_sched); ("seeds", of_nat st.f_seeds);
           ("contacted", of_nlist st.f_contacted); ("running", of_nlist st.f_running);
           ("active", of_list (fun p -> of_n p.pid) st.f_active);
-          ("total_pages", of_nat (total_pages st)); ("on", of_bool st.f_on)]
+          ("total_pages", of_nat (total_pages st)); ("on", of_bool st.f_on);
+          ("pending", of_list (fun (p, t) -> JArr [of_n p; of_nat t]) st.f_pending)]
   | "producer" ->
     (* good: true/false/null; udp: n or null *)
     let good = (match jfield req "good" with JBool b -> Some b | _ -> None) in
     let udp = (match jfield req "udp" with JNull -> None | j -> Some (jn j)) in
     (match producer_action (jbool (jfield req "is_self")) good udp (jn (jfield req "tcp")) with
      | ASkip -> JArr [JStr "skip"] | APut -> JArr [JStr "put"] | APing u -> JArr [JStr "ping"; of_n u])
+  | "pq" ->
+    (* ops: ["enq", p, at] | ["pop", now]; returns the queue after every op and the popped contacts *)
+    let q = ref [] in
+    let outs = ref [] in
+    SL.iter (fun op -> match jlist op with
+      | JStr "enq" :: p :: a :: _ -> q := pq_enqueue !q (jn p) (jz a)
+      | JStr "pop" :: now :: _ -> let (o, r) = pq_pop_due !q (jz now) in q := r; outs := of_option of_n o :: !outs
+      | _ -> raise (Model_error "pq op")) (jlist (jfield req "ops"));
+    JObj [("queue", of_list (fun (p, t) -> JArr [of_n p; of_z t]) !q); ("popped", JArr (SL.rev !outs))]
+  | "store_port_ok" -> of_bool (store_port_ok (jn (jfield req "port")))
   | "guess_udp" -> of_n (guess_udp (jn (jfield req "tcp")))
   | "reply_size" ->
     let contacts = (match jfield req "contacts" with JNull -> None
